@@ -5,11 +5,12 @@ import worldhist as WH
 import worldgen as W
 import radlib as R
 ID = "C07"
-LEAN_TARGETS = ["Rsp.Props.C07", "Rsp.Props.Parse", "Rsp.Props.C06"]
+LEAN_TARGETS = ["Rsp.Props.C07", "Rsp.Props.Parse", "Rsp.Props.C06", "Rsp.Tie.C03"]
 THEOREMS = ["Rsp.Props.C07.readCharString_fits", "Rsp.Props.C07.readCharString_within", "Rsp.Props.C07.parseNaptr_tiles", "Rsp.Props.C07.query_rejects_oversize",
-            "Rsp.Props.C07.answerRRs_within", "Rsp.Props.Parse.parse_some_wellformed", "Rsp.Props.C06.serialize_length"]
+            "Rsp.Props.C07.answerRRs_within", "Rsp.Props.Parse.parse_some_wellformed", "Rsp.Props.C06.serialize_length",
+            "Rsp.Tie.C03.pwdLenBad_tie", "Rsp.Tie.C03.msmppLenBad_tie"]
 RULE = ("(a) DNS answers: NAPTR/SRV record data with character-string lengths at 0/255/beyond the record, record lengths 0..6, names with labels, pointers, loops and overlong labels, "
-        "several records, reported answer sizes below/at/above the 4096-octet buffer, plus bit-flipped and truncated answers; (b) the packet parser, serializer, rewrite stage and "
+        "several records, reported answer sizes below/at/above the 4096-octet buffer, plus bit-flipped and truncated answers; (b) the packet parser, serializer, rewrite stage, hidden-attribute re-encryption (every ciphertext length 0..255) and "
         "reply/F-Ticks log formatters on structured, mutated and boundary-length inputs (generators of C05/C06/C18); (c) whole-pipeline histories with mutated requests and replies under "
         "configurations with every rewrite rule form. Everything runs under ASan+UBSan. non-trivial = malformed/boundary input (not a plain valid one)")
 EXHAUSTIVE = {}
@@ -123,7 +124,7 @@ def gen(rng, tier):
         else:
             cs_.append(Case("dnsqx %s %d %s" % (kind, len(m), WH.mutate(rng, m + bytes(20))[: len(m)].hex()), kind="dns-mutated", malformed=1))
     # the parsers/formatters of the other properties, on their malformed streams
-    for mod, cnt in (("C05", 0.4), ("C06", 0.3), ("C18", 0.02)):
+    for mod, cnt in (("C05", 0.4), ("C06", 0.3), ("C18", 0.02), ("C03", 0.6)):
         g = importlib.import_module("props." + mod)
         sub = g.gen(rng, tier)
         rng.shuffle(sub)
